@@ -45,8 +45,8 @@ Binary == {[t |-> o, a |-> x, b |-> y] : o \in {"cat", "alt"}, x \in Unary, y \i
 Anchored(e) == {e, Cat([t |-> "bol"], e), Cat(e, [t |-> "eol"]), Cat([t |-> "bol"], Cat(e, [t |-> "eol"]))}
 RegexGrid == IF Level = 2 THEN UNION {Anchored(e) : e \in Unary \cup Binary} ELSE {}
 VARIABLES k, x, lay
-\* layouts: 0 one line, 1 one item per line with // comments (LF), 2 /* */ comments, 3 blanks around, 4 / 5 as 1 with CRLF / CR line ends, 6 as 1 with empty comments, 7 one line with every string escape spelled out (\/ \b \f \uXXXX)
-Init == \/ (k = "enum" /\ x \in Lists /\ lay \in 0..7)
+\* layouts: 0 one line, 1 one item per line with // comments (LF), 2 /* */ comments, 3 blanks around, 4 / 5 as 1 with CRLF / CR line ends, 6 as 1 with empty comments, 8 as 1 with two more comment lines after every value, 7 one line with every string escape spelled out (\/ \b \f \uXXXX)
+Init == \/ (k = "enum" /\ x \in Lists /\ lay \in 0..8)
         \/ (k = "regex" /\ x \in Regexes \cup RegexGrid /\ lay = 0)
 Next == UNCHANGED <<k, x, lay>>
 Spec == Init /\ [][Next]_<<k, x, lay>>
